@@ -6,7 +6,7 @@ use crate::common::*;
 use std::io::Write;
 use umya_spreadsheet::*;
 
-const PASSWORDS: &[&str] = &["", "password", "pässwörd", "パスワード", "p😀w𠀋", "a b\tc", "\"quoted\" <&>"];
+const PASSWORDS: &[&str] = &["", "password", "pässwörd", "パスワード", "p😀w𠀋", "a b\tc", "\"quoted\" <&>", "trailing-newline\r\n", " lead and trail ", "\u{3000}wide blank"];
 
 pub fn sizes(rng: &mut Rng) -> usize {
     match rng.below(4) {
